@@ -91,6 +91,10 @@ func main() {
 			fmt.Fprintln(os.Stderr, err)
 			os.Exit(2)
 		}
+		if strings.HasPrefix(*dump, "bf:") {
+			dumpConds(p, strings.TrimPrefix(*dump, "bf:"))
+			return
+		}
 		if strings.HasPrefix(*dump, "eff:") {
 			dumpEffects(p, strings.TrimPrefix(*dump, "eff:"))
 			return
